@@ -21,6 +21,7 @@ open Wm Wm.Poison Wm.Relay
     faninctor <sources|-> <target>               →  ok | err
     fanin <sources> <target> <index> <dest> <uuid> <payload> <meta>
          →  P<n>[:<topic>|<uuid>|<payload>|<meta>|<sameObject>|<unsettled>;…] S:<ack|nack>
+    crash <section>                              →  no-crash   (observation: the recovered panic text)
     fanout <subscribers per topic> <uuid> <payload> <meta>
          →  D<n>[:<uuid>|<payload>|<meta>;…] X:<stray deliveries> S:<ack|nack>
 -/
@@ -341,6 +342,7 @@ def splitObs (rest : List String) : List String × List String :=
   (rest.takeWhile (· != "##"), (rest.dropWhile (· != "##")).drop 1)
 
 def handleM : List String → String
+  | ["crash", _] => "no-crash"      -- the harness reports a panic of the code under test on its own goroutine
   | ["atoi", s] => match hexDec s with
     | some s => (match atoi s with | some i => showInt i | none => "err")
     | none => "bad-op"
@@ -382,6 +384,7 @@ def handleM : List String → String
 
 def handleP (req obs : List String) : String :=
   match req with
+  | ["crash", _] => "violated:panic"
   | ["atoi", _] | ["itoa", _] | ["utf8", _] | ["fwdtopic", _] | ["faninctor", _, _] =>
     -- library / construction behaviour: the statement does not speak about it; the model diff does
     if handleM req == "bad-op" then "bad-op" else "ok"
